@@ -280,25 +280,22 @@ func ruleF3(c *an.Ctx) {
 			cv := call.Value()
 			// the job already wrote _errors: os.IsNotExist(err of readRawSafe(Errors)) is false
 			alreadyReported := func(from, to *ssa.BasicBlock) bool {
-				cnd, t, ok := an.EdgeCond(from, to)
-				if !ok {
-					return false
-				}
-				r := an.Normalize(cnd, t)
-				if r.Op == token.ILLEGAL && !r.Truth {
-					if ic, ok := r.X.(*ssa.Call); ok {
-						if f := ic.Call.StaticCallee(); f != nil && f.Name() == "IsNotExist" && len(ic.Call.Args) == 1 {
-							if ex, ok := ic.Call.Args[0].(*ssa.Extract); ok {
-								if rc, ok := ex.Tuple.(*ssa.Call); ok && rc.Call.StaticCallee() != nil &&
-									strings.HasPrefix(rc.Call.StaticCallee().Name(), "readRaw") &&
-									an.IsConst(rc.Call.Args[1], p.Const(pkgCore, "Errors")) {
-									return true
+				return an.EdgeHolds(from, to, func(r an.Rel) bool {
+					if r.Op == token.ILLEGAL && !r.Truth {
+						if ic, ok := r.X.(*ssa.Call); ok {
+							if f := ic.Call.StaticCallee(); f != nil && f.Name() == "IsNotExist" && len(ic.Call.Args) == 1 {
+								if ex, ok := ic.Call.Args[0].(*ssa.Extract); ok {
+									if rc, ok := ex.Tuple.(*ssa.Call); ok && rc.Call.StaticCallee() != nil &&
+										strings.HasPrefix(rc.Call.StaticCallee().Name(), "readRaw") &&
+										an.IsConst(rc.Call.Args[1], p.Const(pkgCore, "Errors")) {
+										return true
+									}
 								}
 							}
 						}
 					}
-				}
-				return false
+					return false
+				})
 			}
 			// a private helper all of whose paths write _errors or find it already written
 			helperMemo := map[*ssa.Function]bool{}
@@ -328,15 +325,12 @@ func ruleF3(c *an.Ctx) {
 			w := an.Query{Fn: fn, After: call.(ssa.Instruction), Target: an.IsExit,
 				Barrier: func(in ssa.Instruction) bool { return isReport(in, 0) },
 				BarrierEdge: func(from, to *ssa.BasicBlock) bool {
-					cnd, t, ok := an.EdgeCond(from, to)
-					if !ok {
-						return false
-					}
-					r := an.Normalize(cnd, t)
-					if r.Op == token.EQL && r.X == ssa.Value(cv) && an.IsNil(r.Y) {
-						return true // success
-					}
-					return alreadyReported(from, to)
+					return an.EdgeHolds(from, to, func(r an.Rel) bool {
+						if r.Op == token.EQL && r.X == ssa.Value(cv) && an.IsNil(r.Y) {
+							return true // success
+						}
+						return alreadyReported(from, to)
+					})
 				}}.Find()
 			c.Check("F3", "local-failure-reported@"+an.FnName(fn), call.Pos(), w == nil,
 				"a local job whose process failed must be re-enqueued or get an _errors file unless it wrote one itself; "+c.WitnessString(w))
